@@ -40,6 +40,9 @@ def run(tier, seed):
     base = [c06.fix_sessions(c) for c in c06.model_cases("quick", wd, tmp)]
     rnd = random.Random(seed)
     base = rnd.sample(base, 150 if tier == "quick" else 1500) + c06.random_cases(40 if tier == "quick" else 600, seed)
+    # a second database whose name starts with the first one's, snapshotted together with it: "every database keeps
+    # its own name, identifier and conflict strategy"
+    base += [c06.with_neighbour(c) for c in base[:50 if tier == "quick" else 500]]
     # stub faults: nth PUT fails once / always
     faulty = []
     for i, c in enumerate(base[:60 if tier == "quick" else 500]):
